@@ -75,7 +75,7 @@ def gen_case(r, depth, kind=None):
         c["params"], c["body"], c["targs"], c["inst"] = gen_poly(r, g, depth)
     elif k == "FuncDefn":
         c["params"], c["body"], _, _ = gen_poly(r, g, depth)
-        c["name"] = r.choice(["f", "main", "ünï", ""])
+        c["name"] = r.choice(["f", "main", "ünï", "", " f\n"])
     elif k == "LoadConst":
         c["ty"] = g.ty(depth)
     elif k == "Const":
